@@ -369,3 +369,137 @@ theorem compareRecon_invalid (a b : List Char) (h : (events a).2 ≠ .fin ∨ (e
       | true => exact absurd hc this
 
 end SwimVerif.ReconEq
+
+namespace SwimVerif.ReconEq
+open SwimVerif.Recon
+
+/-! ## canonical streams of equal values agree event by event -/
+
+/-- Two event lists agree event by event. -/
+def evsAgree : List Event → List Event → Bool
+  | [], [] => true
+  | e :: a, f :: b => e.beq f && evsAgree a b
+  | _, _ => false
+
+theorem evsAgree_refl (a : List Event) : evsAgree a a = true := by
+  induction a with
+  | nil => rfl
+  | cons e r ih => simp [evsAgree, Event.beq_refl, ih]
+
+theorem evsAgree_append (a a' b b' : List Event) (h1 : evsAgree a a' = true) (h2 : evsAgree b b' = true) :
+    evsAgree (a ++ b) (a' ++ b') = true := by
+  induction a generalizing a' with
+  | nil => cases a' <;> simp [evsAgree] at h1 ⊢; exact h2
+  | cons e r ih =>
+    cases a' with
+    | nil => simp [evsAgree] at h1
+    | cons f r' =>
+      simp only [evsAgree, Bool.and_eq_true, List.cons_append] at h1 ⊢
+      exact ⟨h1.1, ih r' h1.2⟩
+
+theorem evsAgree_cons (e f : Event) (a b : List Event) (h1 : e.beq f = true) (h2 : evsAgree a b = true) :
+    evsAgree (e :: a) (f :: b) = true := by simp [evsAgree, h1, h2]
+
+theorem streamsAgree_of_evs (a b : List Event) (h : evsAgree a b = true) :
+    streamsAgree (stream (a, .fin)) (stream (b, .fin)) = true := by
+  simp only [stream, ↓reduceIte, List.append_nil]
+  induction a generalizing b with
+  | nil => cases b <;> simp [evsAgree] at h ⊢; rfl
+  | cons e r ih =>
+    cases b with
+    | nil => simp [evsAgree] at h
+    | cons f r' =>
+      simp only [evsAgree, Bool.and_eq_true] at h
+      simp only [List.map_cons, streamsAgree, itemAgree, h.1, Bool.true_and]
+      exact ih r' h.2
+
+mutual
+theorem evsV_agree : (v w : Value) → veq v w = true → evsAgree (evsV v) (evsV w) = true
+  | .extant, w, h => by cases w <;> simp [veq] at h; rfl
+  | .int k n, w, h => by
+    cases w <;> simp [veq] at h
+    subst h; exact evsAgree_refl _
+  | .float f, w, h => by
+    cases w <;> simp [veq] at h
+    simp [evsV, evsAgree, Event.beq, Num.beq, h]
+  | .bool b, w, h => by
+    cases w <;> simp [veq] at h
+    subst h; exact evsAgree_refl _
+  | .text s, w, h => by
+    cases w <;> simp [veq] at h
+    subst h; exact evsAgree_refl _
+  | .data bs, w, h => by
+    cases w <;> simp [veq] at h
+    subst h; exact evsAgree_refl _
+  | .record a i, w, h => by
+    cases w <;> simp [veq] at h
+    simp only [evsV]
+    exact evsAgree_append _ _ _ _ (evsA_agree a _ h.1)
+      (evsAgree_cons _ _ _ _ rfl (evsAgree_append _ _ _ _ (evsI_agree i _ h.2) (evsAgree_refl _)))
+theorem body_agree : (v w : Value) → veq v w = true → evsAgree (bodyEvs v) (bodyEvs w) = true
+  | .extant, w, h => by cases w <;> simp [veq] at h; rfl
+  | .int k n, w, h => by
+    have := evsV_agree (.int k n) w h
+    cases w <;> simp [veq] at h
+    simpa [bodyEvs] using this
+  | .float f, w, h => by
+    have := evsV_agree (.float f) w h
+    cases w <;> simp [veq] at h
+    simpa [bodyEvs] using this
+  | .bool b, w, h => by
+    have := evsV_agree (.bool b) w h
+    cases w <;> simp [veq] at h
+    simpa [bodyEvs] using this
+  | .text s, w, h => by
+    have := evsV_agree (.text s) w h
+    cases w <;> simp [veq] at h
+    simpa [bodyEvs] using this
+  | .data bs, w, h => by
+    have := evsV_agree (.data bs) w h
+    cases w <;> simp [veq] at h
+    simpa [bodyEvs] using this
+  | .record a i, w, h => by
+    have := evsV_agree (.record a i) w h
+    cases w <;> simp [veq] at h
+    simpa [bodyEvs] using this
+theorem evsA_agree : (a b : Attrs) → aeq a b = true → evsAgree (evsA a) (evsA b) = true
+  | .nil, b, h => by cases b <;> simp [aeq] at h; rfl
+  | .cons n v r, b, h => by
+    cases b with
+    | nil => simp [aeq] at h
+    | cons n' v' r' =>
+      simp only [aeq, Bool.and_eq_true, beq_iff_eq] at h
+      obtain ⟨⟨hn, hv⟩, hr⟩ := h
+      subst hn
+      rw [evsA_cons, evsA_cons]
+      exact evsAgree_append _ _ _ _
+        (evsAgree_cons _ _ _ _ (Event.beq_refl _) (evsAgree_append _ _ _ _ (body_agree v v' hv) (evsAgree_refl _)))
+        (evsA_agree r r' hr)
+theorem evsI_agree : (i j : Items) → ieq i j = true → evsAgree (evsI i) (evsI j) = true
+  | .nil, j, h => by cases j <;> simp [ieq] at h; rfl
+  | .val v r, j, h => by
+    cases j with
+    | nil => simp [ieq] at h
+    | slot _ _ _ => simp [ieq] at h
+    | val v' r' =>
+      simp only [ieq, Bool.and_eq_true] at h
+      simp only [evsI]
+      exact evsAgree_append _ _ _ _ (evsV_agree v v' h.1) (evsI_agree r r' h.2)
+  | .slot k v r, j, h => by
+    cases j with
+    | nil => simp [ieq] at h
+    | val _ _ => simp [ieq] at h
+    | slot k' v' r' =>
+      simp only [ieq, Bool.and_eq_true] at h
+      simp only [evsI]
+      exact evsAgree_append _ _ _ _ (evsV_agree k k' h.1.1)
+        (evsAgree_cons _ _ _ _ rfl (evsAgree_append _ _ _ _ (evsV_agree v v' h.1.2) (evsI_agree r r' h.2)))
+end
+
+/-- Canonical streams of equal values never compare `Some(false)`. -/
+theorem canonical_complete (v w : Value) (h : veq v w = true) :
+    incrementalCompare (stream (evsV v, .fin)) (stream (evsV w, .fin)) = none ∨
+    incrementalCompare (stream (evsV v, .fin)) (stream (evsV w, .fin)) = some true :=
+  incrementalCompare_agree _ _ (streamsAgree_of_evs _ _ (evsV_agree v w h))
+
+end SwimVerif.ReconEq
